@@ -246,7 +246,14 @@ def judge_plots(names, spec_keys=("A", "C")):
                 try:
                     with sim.owned(5, "synchronous"), own.quiet(), np.errstate(all="ignore"):
                         t1 = nuspacesim.compute(cfg, to_plot=[nm])
-                except Exception:
+                except Exception as ex:
+                    import traceback
+
+                    frames = [f.filename for f in traceback.extract_tb(ex.__traceback__) if "nuspacesim" in f.filename.replace("\\", "/").split("site-packages")[-1] and "/nssmc/" not in f.filename]
+                    if frames and (frames[-1].endswith("plots.py") or "plot" in frames[-1].rsplit("/", 1)[-1]):
+                        continue  # the plot helper itself failed (degenerate data): outside every listed property
+                    n += 1
+                    out.append(("requesting_a_plot_does_not_change_the_results", f"spec {k}, plot {nm}: the run completes as it does without plots", f"{type(ex).__name__}: {str(ex)[:100]} (raised in {frames[-1].rsplit('/', 1)[-1] if frames else '?'})", k, nm))
                     continue
                 finally:
                     plt.close("all")
